@@ -197,7 +197,7 @@ def worker(shard, nshards, tier, seed, prop):
 
 
 def run(prop, tier, seed):
-    acc = parallel(worker, tier, seed, extra=(prop,))
+    acc = parallel(worker, tier, seed, extra=(prop,), warm_pass=True)
     cov = {
         "states": acc.n["schemas"],
         "transitions": acc.n["substitutions"],
